@@ -377,7 +377,7 @@ pub fn prop() -> Prop<History> {
     Prop {
         id: "C02",
         level: "exploration",
-        rule: "case = history (initial tree + <=14 ops quick / <=30 thorough over mutate/backup(options)/backup interrupted before its k-th mutating storage op (optionally leaving an empty file)/delete(subset, dry-run)/gc), interpreted against a model that remembers the source tree of every completed version; after EVERY step every surviving complete version is restored by id and compared byte/metadata-exact with its snapshot, and restore(latest) must equal the newest (or fail iff none). Non-trivial = >=2 completed backups with a mutation between them and at least one of {interrupted-then-resumed, delete of a middle version, gc, file<->dir swap}; distinct by case hash; evaluations = restores compared; plus three fixed scale probes per run (two versions of a 10 012-file tree with one entry per index hunk; of a tree with single blocks of 40 MiB and 33 MiB+1 written with a 64 MiB block size; of 10 000 files with 3.3 KB paths, i.e. one index hunk of more than 32 MiB); since round 7 two more probes: the huge-block probe also with 1 500 000-byte blocks (files of several blocks, of exactly two, of one plus a byte), and a file rewritten in place (same length, later mtime) at every block write of a backup followed by a backup of the source at rest, which must restore to exactly that source (and 'latest' too), every other file of the first version restoring exactly; a tenth of the generated block sizes lie between 2 KiB and 200 KB",
+        rule: "case = history (initial tree + <=14 ops quick / <=30 thorough over mutate/backup(options)/backup interrupted before its k-th mutating storage op (optionally leaving an empty file)/delete(subset, dry-run)/gc), interpreted against a model that remembers the source tree of every completed version; after EVERY step every surviving complete version is restored by id and compared byte/metadata-exact with its snapshot, and restore(latest) must equal the newest (or fail iff none). Non-trivial = >=2 completed backups with a mutation between them and at least one of {interrupted-then-resumed, delete of a middle version, gc, file<->dir swap}; distinct by case hash; evaluations = restores compared; plus three fixed scale probes per run (two versions of a 10 012-file tree with one entry per index hunk; of a tree with single blocks of 40 MiB and 33 MiB+1 written with a 64 MiB block size; of 10 000 files with 3.3 KB paths, i.e. one index hunk of more than 32 MiB); since round 7 two more probes: the huge-block probe also with 1 500 000-byte blocks (files of several blocks, of exactly two, of one plus a byte), and a file rewritten in place (same length, later mtime) at every block write of a backup followed by a backup of the source at rest, which must restore to exactly that source (and 'latest' too), every other file of the first version restoring exactly; a tenth of the generated block sizes lie between 2 KiB and 200 KB; since round 9 the edit set can make a file vanish while a different file of the same name, length and mtime appears in another directory, and restores run under the file-creation masks 022, 077, 002, 027 in turn (all checks)",
         assumptions: &[
             "interruption = storage frozen at a transport-operation boundary (all later operations fail without touching the directory)",
             "content changes always change mtime or size (documented heuristic)",
